@@ -230,12 +230,32 @@ def do_replay(scenario, scene, job):
     c1 = sim_canon(sim1)
     data = scenario.simulationToBytes(sim1)
     random.seed(12345)  # a different stream: the replay must not depend on it
-    oc, sim2 = outcome_of(lambda: scenario.simulationFromBytes(data, DummySimulator(drift=1.0), maxSteps=steps, maxIterations=1))
+    oc, sim2 = outcome_of(lambda: scenario.simulationFromBytes(data, DummySimulator(drift=1.0), maxSteps=steps, maxIterations=1, enableDivergenceCheck=True))
     out["outcome"] = oc
     out["equal"] = oc == "ok" and sim2 is not None and sim_canon(sim2) == c1
     if oc == "ok" and sim2 is not None and not out["equal"]:
         out["diff"] = dict(a=c1, b=sim_canon(sim2))
     out["nbytes"] = len(data)
+    # a replayed simulation re-records the same replay, and its own encoding replays again (second generation)
+    if oc == "ok" and sim2 is not None:
+        out["rerecord_equal"] = sim2.getReplay() == sim1.getReplay()
+        data2 = scenario.simulationToBytes(sim2)
+        random.seed(999)
+        oc3, sim3 = outcome_of(lambda: scenario.simulationFromBytes(data2, DummySimulator(drift=1.0), maxSteps=steps, maxIterations=1))
+        out["gen2_outcome"] = oc3
+        out["gen2_equal"] = oc3 == "ok" and sim3 is not None and sim_canon(sim3) == c1
+        # replay continued past the end of the recording, then encoded and replayed again
+        random.seed(4321)
+        oc4, sim4 = outcome_of(lambda: scenario.simulationFromBytes(data, DummySimulator(drift=1.0), maxSteps=steps + 3, maxIterations=1))
+        if oc4 == "ok" and sim4 is not None:
+            c4 = sim_canon(sim4)
+            out["extended_prefix_equal"] = c4["actions"][:len(c1["actions"])] == c1["actions"]
+            data4 = scenario.simulationToBytes(sim4)
+            random.seed(5)
+            oc5, sim5 = outcome_of(lambda: scenario.simulationFromBytes(data4, DummySimulator(drift=1.0), maxSteps=steps + 3, maxIterations=1))
+            out["extended_gen2_equal"] = oc5 == "ok" and sim5 is not None and sim_canon(sim5) == c4
+        else:
+            out["extended_outcome"] = oc4
     # divergence in either direction: drift scaled in 1/1024 units so model arithmetic is exact
     div = []
     replay = sim1.getReplay()
